@@ -34,18 +34,19 @@ func init() {
 		ID:    "C16",
 		Level: "exploration",
 		Rule: "FirstDiffBits on ALL ordered pairs of the 40 strings of length <= 3 over {00,01,ff}, on keyzoo lists (any order) and on stems of length 7,8,9,15,16,17,23,24,25 with a difference / NUL padding / extension " +
-			"just before, at and after each 8-byte chunk boundary; CountPrefixes on strictly ascending keyzoo sets of 2..40 keys x ALL sub-ranges [s,e) with e-s >= 2 (sets <= 8 keys) or sampled x m in {1,2,3,8,9,17,64,200}, " +
+			"just before, at and after each 8-byte chunk boundary; long keys of 31..300 and 4100 bytes (first-difference bits beyond 2048 and 32768) with differences at the far end; CountPrefixes on strictly ascending keyzoo sets of 2..40 keys x ALL sub-ranges [s,e) with e-s >= 2 (sets <= 8 keys) or sampled x m in {1,2,3,8,9,17,64,200}, " +
 			"against explicitly built sets of truncated bit strings. Non-trivial+distinct = hash of (a,b) pairs with a != b; hash of (keys, s, e, m).",
 		Assumptions: []string{"non-empty key lists; CountPrefixes only on strictly ascending keys, e-s >= 2, m >= 1"},
 		Flavours:    releaseThenGo126,
 		Required: []string{"fd/equal", "fd/byte-prefix", "fd/nul-padding-twin", "fd/diff-in-chunk-0", "fd/diff-in-chunk-1", "fd/diff-in-chunk-2", "fd/diff-at-chunk-boundary", "fd/empty-key", "fd/single-key-list",
-			"cp/s>0", "cp/m=1", "cp/m>=64", "cp/key-shorter-than-prefix", "cp/all-subranges"},
+			"cp/s>0", "cp/m=1", "cp/m>=64", "cp/key-shorter-than-prefix", "cp/all-subranges", "fd/first-diff-bit>=2048", "fd/first-diff-bit>=32768"},
 		Families: func(c *mon.Config) []mon.Family {
 			return []mon.Family{
 				{Name: "fd-small-universe", N: 40, Run: c16Small},
 				{Name: "fd-chunk-boundaries", N: 9 * c.Pick(200, 20000), Run: c16Chunks},
 				{Name: "fd-keyzoo", N: c.Pick(10000, 1500000), Run: c16Zoo},
 				{Name: "countprefixes", N: c.Pick(6000, 800000), Run: c16Count},
+				{Name: "long-keys", N: len(c16LongLens) * c.Pick(2, 200), Run: c16LongKeys},
 			}
 		},
 	})
@@ -284,4 +285,80 @@ func c16Count(w *mon.W, idx int) {
 		}
 	}
 	w.Sample(func() interface{} { return mon.D{"keys": fmt.Sprintf("%.300q", keys), "all_subranges": all} })
+}
+
+var c16LongLens = []int{31, 32, 33, 63, 64, 65, 127, 128, 129, 255, 256, 257, 300, 4100}
+
+// c16LongKeys: keys of 31..4100 bytes that agree on almost all of their length (first-difference
+// bits beyond 2^11 and 2^15), FirstDiffBits on the list and CountPrefixes on its sorted version.
+func c16LongKeys(w *mon.W, idx int) {
+	r := w.Rng
+	l := c16LongLens[idx%len(c16LongLens)]
+	stem := gen.ZooBytes(r, l)
+	keys := []string{string(stem)}
+	for _, pos := range []int{l - 1, l - 2, l - 8, l - 9, l / 2, 8 * (l / 8), 8*(l/8) - 1, r.Intn(l)} {
+		if pos < 0 || pos >= l {
+			continue
+		}
+		m := append([]byte(nil), stem...)
+		m[pos] ^= 1 << uint(r.Intn(8))
+		keys = append(keys, string(m), string(stem))
+	}
+	keys = append(keys, string(stem)+"\x00", string(stem), string(stem)+"\x00\x00\x00\x00\x00\x00\x00\x00\x01", string(stem[:l-1]), string(stem)+"\xff")
+	if !c16CheckList(w, keys) {
+		return
+	}
+	for i := 0; i+1 < len(keys); i++ {
+		if d := c16FirstDiff(keys[i], keys[i+1]); d >= 2048 {
+			w.Bucket("fd/first-diff-bit>=2048")
+			if d >= 32768 {
+				w.Bucket("fd/first-diff-bit>=32768")
+			}
+		}
+	}
+	sorted := gen.SortedUnique(keys)
+	sb := sigbits.New(sorted)
+	n := len(sorted)
+	for k := 0; k < 6; k++ {
+		s := r.Intn(n - 1)
+		e := s + 2 + r.Intn(n-s-1)
+		if k == 0 {
+			s, e = 0, n
+		}
+		m := r.Pick(1, 2, 3, 9)
+		gm, gc := sb.CountPrefixes(int32(s), int32(e), int32(m))
+		w.Eval(1)
+		m0 := 1 << 30
+		for i := s; i < e-1; i++ {
+			if d := c16FirstDiff(sorted[i], sorted[i+1]); d < m0 {
+				m0 = d
+			}
+		}
+		if int(gm) != m0 || len(gc) != m {
+			w.Fail("CountPrefixes/min", mon.D{"key_len": l, "s": s, "e": e, "m": m, "got": gm, "expected": m0, "len_counters": len(gc)})
+			return
+		}
+		for i := 0; i < m; i++ {
+			set := map[string]struct{}{}
+			for _, key := range sorted[s:e] {
+				// compare only the region around the first difference: all keys agree before m0
+				lo := (m0 / 8) * 8
+				t := c16Trunc(key, m0+i)
+				if len(t) > lo {
+					t = t[lo:]
+				} else {
+					t = "short:" + fmt.Sprint(len(t))
+				}
+				set[t] = struct{}{}
+			}
+			if int(gc[i]) != len(set) {
+				w.Fail("CountPrefixes/counter", mon.D{"key_len": l, "s": s, "e": e, "m": m, "i": i, "got": gc[i], "expected": len(set)})
+				return
+			}
+		}
+	}
+	w.Distinct(gen.Hash64(0x10a6, uint64(l), gen.HashBytes(stem)))
+	w.Sample(func() interface{} {
+		return mon.D{"key_len": l, "keys": len(keys), "what": "long keys differing near their end"}
+	})
 }
